@@ -4,9 +4,10 @@
    A [gkind] names a generated chain (Gen/GuardProgs.v, by its g_name), the classes of the attributes
    the chain reads (the SCHEMA: what a declaration that typedpy accepts leaves in the field object) and
    the DOMAIN of the parameters: [None] = every value whatsoever.  A kind whose domain is all-None and
-   that passes [gsafe] is unconditionally safe; the kinds that need a restricted domain are exactly the
-   known defects (sign mix-ins compare before the type check; Boolean / Enum-over-a-class hash the
-   value; Float converts ints of any size), stated with the largest domain the analysis accepts.
+   that passes [gsafe] is unconditionally safe: every scalar field's chain is (Props/C18.v,
+   C18_rejection_is_templated_all_values); a kind with a restricted domain states the largest domain
+   the analysis accepts ([numbers], [hashables], [no_big_int] below are kept for the witnesses of
+   Props/C18.v: shapes that order / hash / convert the value before checking its class).
    The harness compares every generated field object with its schema inside Coq.  No proofs here. *)
 From Coq Require Import ZArith NArith List String Bool. Import ListNotations.
 From TP Require Import Base.PyVal Base.PyOps Errors.Template Errors.TemplateOk Errors.Guard Gen.Templates Gen.GuardProgs.
@@ -57,34 +58,37 @@ Definition collections : absv :=
 Definition kind (label entry : string) (schema : list (pystr * list acls)) (dom : list absv) : gkind :=
   {| k_label := s2p label; k_entry := s2p entry; k_schema := schema; k_domain := dom |}.
 
-(* unconditional: every value *)
+(* unconditional: every value.  (Until the "fix:" commits for C18-F22a/b/c and C18-F24 the sign mix-ins,
+   Float and its sign variants, Boolean and Enum over a class needed restricted domains - numbers,
+   hashables, no int beyond the float range: they ordered, hashed or converted the value before looking
+   at its class.  Each now tests the class first, and the analysis accepts its chain on every value.) *)
 Definition kinds_all_values : list gkind :=
   [ kind "Number" "Number.__set__" number_schema [anything];
+    kind "Positive" "Positive.__set__" number_schema [anything];
+    kind "Negative" "Negative.__set__" number_schema [anything];
+    kind "NonPositive" "NonPositive.__set__" number_schema [anything];
+    kind "NonNegative" "NonNegative.__set__" number_schema [anything];
     kind "Integer" "Integer.__set__" number_schema [anything];
     kind "PositiveInt" "PositiveInt.__set__" number_schema [anything];
     kind "NegativeInt" "NegativeInt.__set__" number_schema [anything];
     kind "NonPositiveInt" "NonPositiveInt.__set__" number_schema [anything];
     kind "NonNegativeInt" "NonNegativeInt.__set__" number_schema [anything];
+    kind "Float" "Float.__set__" number_schema [anything];
+    kind "PositiveFloat" "PositiveFloat.__set__" number_schema [anything];
+    kind "NegativeFloat" "NegativeFloat.__set__" number_schema [anything];
+    kind "NonPositiveFloat" "NonPositiveFloat.__set__" number_schema [anything];
+    kind "NonNegativeFloat" "NonNegativeFloat.__set__" number_schema [anything];
     kind "String" "String.__set__" string_schema [anything];
+    kind "Boolean" "Boolean.__set__" [] [anything];
     kind "Enum[values]" "Enum._validate" enum_values_schema [anything];
+    kind "Enum[cls]" "Enum._validate" enum_cls_schema [anything];
     kind "verify[list]" "verify_type_and_uniqueness[list]" [] [anything; anything];
     kind "verify[deque]" "verify_type_and_uniqueness[deque]" [] [anything; anything];
     kind "verify[tuple]" "verify_type_and_uniqueness[tuple]" [] [anything; anything] ].
 
-(* conditional: the chain is safe on the stated domain only (and a witness outside it is bare) *)
+(* conditional: a helper that its callers reach only after the type check (len() of the value) *)
 Definition kinds_restricted : list gkind :=
-  [ kind "Positive" "Positive.__set__" number_schema [numbers];
-    kind "Negative" "Negative.__set__" number_schema [numbers];
-    kind "NonPositive" "NonPositive.__set__" number_schema [numbers];
-    kind "NonNegative" "NonNegative.__set__" number_schema [numbers];
-    kind "Float" "Float.__set__" number_schema [no_big_int];
-    kind "PositiveFloat" "PositiveFloat.__set__" number_schema [numbers_no_big_int];
-    kind "NegativeFloat" "NegativeFloat.__set__" number_schema [numbers_no_big_int];
-    kind "NonPositiveFloat" "NonPositiveFloat.__set__" number_schema [numbers_no_big_int];
-    kind "NonNegativeFloat" "NonNegativeFloat.__set__" number_schema [numbers_no_big_int];
-    kind "Boolean" "Boolean.__set__" [] [hashables];
-    kind "Enum[cls]" "Enum._validate" enum_cls_schema [hashables];
-    kind "validate_size" "SizedCollection.validate_size" size_schema [collections] ].
+  [ kind "validate_size" "SizedCollection.validate_size" size_schema [collections] ].
 
 Definition kinds : list gkind := kinds_all_values ++ kinds_restricted.
 
